@@ -1,6 +1,6 @@
 (* Property C07 -- an EQL query translated to SQL selects the same entities as in-memory evaluation.
    Only statements, each closed by [exact].  Model: Orm/EqlToSql.v (translator, tree after the C07 fix: commits
-   5ffa83c f1c6930 6b20ce1 6e7d0db 7e47af0 f599ad3 20777ed 24ba119 c0600cf cbfdb2e 313603b 99b53a0) over Orm/SqlAlg.v (what the statement means on SQLite --
+   5ffa83c f1c6930 6b20ce1 6e7d0db 7e47af0 f599ad3 20777ed 24ba119 c0600cf cbfdb2e 313603b 99b53a0 beaaa59) over Orm/SqlAlg.v (what the statement means on SQLite --
    compared, not proved); Spec: Orm/EqlToSqlSpec.v ([answers]).  Level: partial. *)
 From Coq Require Import List ZArith Bool.
 From Krrood Require Import Base.Sx Orm.EqlToSqlSpec Orm.SqlAlg Orm.EqlToSql Orm.EqlToSqlProofs Orm.EqlToSqlJoinProofs.
@@ -102,10 +102,15 @@ Theorem C07_refuted_noneref :      (* a None reference on a chain: dropped by th
   (model_res Wit.sc WitJ.q_noneref WitJ.wn = Some (Ok [6]) /\ answers Wit.sc WitJ.q_noneref WitJ.wn = Err AttrErr) /\
   f07 Wit.sc WitJ.q_noneref_or WitJ.wn = false.
 Proof. exact refuted_noneref. Qed.
-Theorem C07_refuted_enumorder :    (* <, <=, >, >= on an Enum-valued column: Python raises TypeError, SQL orders the stored member names *)
-  f07 WitJ.sce WitJ.q_enum_lt WitJ.we = false /\
-  model_res WitJ.sce WitJ.q_enum_lt WitJ.we = Some (Ok [1; 3]) /\ answers WitJ.sce WitJ.q_enum_lt WitJ.we = Err TypeErr.
-Proof. exact refuted_enumorder. Qed.
+(* (8) <, <=, >, >= with an Enum-typed column on either side is never answered (was C07-o) *)
+Theorem C07_rejects_enum_order : forall sc q op l r,
+  q_cond q = Some (CCmp op l r) -> eqne op = false ->
+  (enum_col sc (q_vars q) l || enum_col sc (q_vars q) r) = true -> forall s, translate sc q <> TOk s.
+Proof. exact rejects_enum_order. Qed.
+Example C07_fixed_enumorder :      (* a.element < Element.H is rejected; before beaaa59 SQL ordered the stored names where memory raises TypeError *)
+  translate WitJ.sce WitJ.q_enum_lt = TReject /\ answers WitJ.sce WitJ.q_enum_lt WitJ.we = Err TypeErr /\
+  f07 WitJ.sce WitJ.q_enum_lt WitJ.we = false.
+Proof. exact fixed_enumorder. Qed.
 Example C07_nonvacuous_enum :      (* a bare Enum attribute as condition, ==, in_ on it: inside F07, same rows *)
   f07 WitJ.sce WitJ.q_enum WitJ.we = true /\ model_res WitJ.sce WitJ.q_enum WitJ.we = Some (Ok [1; 3]) /\
   answers WitJ.sce WitJ.q_enum WitJ.we = Ok [1; 3].
@@ -192,4 +197,4 @@ Print Assumptions C07_refuted_valueeq.
 Print Assumptions C07_refuted_noneref.
 Print Assumptions C07_rejects_var_operand.
 Print Assumptions C07_rejects_setof.
-Print Assumptions C07_refuted_enumorder.
+Print Assumptions C07_rejects_enum_order.
